@@ -351,6 +351,10 @@ func runC12(c *Ctx) {
 	c.statusWriteGuard()
 	c.statusRetryShape("C12.5")
 	c.statusOnlyAfterCompletePass(r)
+	// where the total was lowered for a finished pod, the replacement is created (and counted back) before the pass can
+	// end well: otherwise the status written has the finished pod's ordinal missing from replicas, and the completion
+	// rule can fire for a pass that saw a pod that was neither updated nor ready (the replacement rule of C03, as a clause)
+	c.withOnly(map[string]string{"C03.2-class-b-replaced": "C12.1-lowered-total-is-counted-back"}, nil, "C12.1-replacements", 1, func() { runC03(c) })
 }
 
 // statusOnlyAfterCompletePass: the counters are a census of the pods only once the pass has run to its
